@@ -24,7 +24,7 @@ import (
 	"vt/wire"
 )
 
-func init() { kinds["cache"] = runCache; kinds["pubip"] = runPubIP }
+func init() { kinds["cache"] = runCache; kinds["pubip"] = runPubIP; kinds["pubfetch"] = runPubFetch }
 
 // CacheOp is one step of a cache scenario.
 type CacheOp struct {
@@ -245,3 +245,42 @@ func runPubIP(t *testing.T, s *Scenario) (evs []wire.Event) {
 
 func jsonMarshal(v any) ([]byte, error)   { return json.Marshal(v) }
 func jsonUnmarshal(b []byte, v any) error { return json.Unmarshal(b, v) }
+
+// runPubFetch: the REAL PublicIPFetcher (its own http client) in a namespace without connectivity: every provider fails. Several
+// lookups in a row on ONE fetcher, on the real clock; each must come back (with an error) within the budget of the five providers -
+// what happened to an earlier lookup must not change that.
+func runPubFetch(t *testing.T, s *Scenario) []wire.Event {
+	n := 2
+	if v, ok := s.Extra["calls"].(float64); ok {
+		n = int(v)
+	}
+	w := wire.New(wire.Script{})
+	w.Millis = true
+	old := cache.Cache
+	cache.Cache = gocache.New(5*time.Minute, 0)
+	defer func() { cache.Cache = old }()
+	w.LogEvent("Params", "variant", "pubfetch", "entry", "pubfetch", "strict", false, "min", 0, "max", 0, "timeout_us", 0, "delay_us", 0, "poll_us", 0,
+		"target", "", "port", 0, "cancel_us", 0, "filter", false, "calls", n)
+	f := publicip.NewPublicIPFetcher()
+	for i := 1; i <= n; i++ {
+		done := make(chan error, 1)
+		t0 := time.Now()
+		go func() {
+			_, err := f.GetIP(context.Background())
+			done <- err
+		}()
+		returned, ok := false, false
+		select {
+		case err := <-done:
+			returned, ok = true, err == nil
+		case <-time.After(30 * time.Second):
+		}
+		w.LogEvent("Got", "op", "getip", "i", i, "returned", returned, "ok", ok, "ms", time.Since(t0).Milliseconds())
+		if !returned {
+			break
+		}
+	}
+	w.LogEvent("Return", "ok", true, "panic", "", "err", errInfo(nil), "has_result", false, "hops", []hopOut{}, "src", "", "sport", 0, "dst", "", "dport", 0,
+		"goroutines", 0, "gsample", "", "opened", 0, "closed_once", 0, "bad_handles", []string{}, "accepts", 0)
+	return w.Events()
+}
